@@ -86,6 +86,11 @@ class NdArr:
       raise TypeError('iteration over a 0-d array')
     return iter([self.index(i) for i in range(self.shape[0])])
 
+  def __bool__(self):
+    if len(self.data) != 1:
+      raise ValueError('The truth value of an array with more than one element is ambiguous')
+    return bool(self.data[0])
+
   def __repr__(self):
     return f'NdArr{self.shape}{self.data if len(self.data) <= 12 else self.data[:12] + ["..."]}'
 
@@ -380,6 +385,8 @@ def np_call(name: str, args: list, kwargs: dict) -> Any:
     f = {'min': BIN['minimum'], 'amin': BIN['minimum'], 'max': BIN['maximum'], 'amax': BIN['maximum'], 'sum': operator.add}[name]
     axis = kwargs.get('axis', args[1] if len(args) > 1 else None)
     return a0.reduce(f, axis, bool(kwargs.get('keepdims', False)))
+  if name in ('all', 'any') and len(args) == 1 and not (set(kwargs) - {'axis'}) and kwargs.get('axis') is None:
+    return (all if name == 'all' else any)(bool(x) for x in a0.data)
   if name in ('abs', 'absolute'):
     return a0.map(abs)
   if name in ('rint', 'round', 'around'):
